@@ -134,7 +134,7 @@ package json
 //@   ensures wf: wfPeeker(p)
 //@   ensures node: okNode(n)
 // the range computed from a syntax error offset is not inverted and does not start before the token
-//@   ensures-local range: inscope("errEndPos") ==> (errEndPos.Byte >= errPos.Byte && errPos.Byte >= tok.Range.Start.Byte)
+//@   guard-store range: "+Range[.]End[.]Byte$" inscope("errEndPos") ==> (storedvalue() == errEndPos.Byte && errEndPos.Byte >= errPos.Byte && errPos.Byte >= tok.Range.Start.Byte)
 //@ func parseKeyword(p *peeker) (n node, diags hcl.Diagnostics)
 //@   requires wf: wfPeeker(p)
 //@   modifies *
